@@ -208,6 +208,9 @@ func (r *runner) runEditChain(st chainStart, specs []viewSpec, ops []chainOp, re
 	if h == nil {
 		return true
 	}
+	if st.variant {
+		c.Obs("edit chains under live views of a graph in a representation variant or made from a free-form input|"+st.repr, 1)
+	}
 	views := make([]liveView, len(specs))
 	if pi := c.Call(caseKey+"|views", func() {
 		for k, s := range specs {
@@ -441,7 +444,16 @@ func (r *runner) multicodeMultiple(gs []*rg.G, opsFor func(target int, m *rg.G) 
 	var code []byte
 	ids := make([]string, len(gs))
 	for i, g := range gs {
-		code = append(code, refMulticode(g)...)
+		if rnd := graphRand(c, "multi:free-order", g); tag == "seeded" && g.N >= 3 && rnd.Bool(0.5) {
+			// the larger neighbours of a vertex in an order of the writer's own (variants.go)
+			rec, unordered := freeMulticode(g, rnd)
+			code = append(code, rec...)
+			if unordered > 0 {
+				c.Obs("MulticodeDecodeMultiple records with a neighbour list not in ascending order", 1)
+			}
+		} else {
+			code = append(code, refMulticode(g)...)
+		}
 		ids[i] = gid(g)
 	}
 	caseKey := fmt.Sprintf("MulticodeDecodeMultiple|%v|%s", code, tag)
@@ -508,6 +520,9 @@ func (r *runner) siblings(st chainStart, rnd *engine.Rng, steps int) {
 	src := st.build(caseKey + "|build")
 	if src == nil {
 		return
+	}
+	if st.variant {
+		c.Obs("copies-of-one-graph from a value in a representation variant or made from a free-form input|"+st.repr, 1)
 	}
 	id := make([]int, n)
 	rev := make([]int, n)
@@ -649,7 +664,7 @@ func editUnits(c *engine.Ctx) []unit {
 					g = gen.Random(rnd, n, rnd.Float())
 				}
 				src := srcs[rnd.Intn(len(srcs))]
-				st := chainStart{source: src.name, repr: src.repr, id: gid(g), model: g, build: func(key string) graph.EditableGraph { return src.build(c, key, g) }}
+				st := chainStart{variant: src.variant, source: src.name, repr: src.repr, id: gid(g), model: g, build: func(key string) graph.EditableGraph { return src.build(c, key, g) }}
 				if !r.conforms(st) {
 					continue
 				}
@@ -735,7 +750,7 @@ func editUnits(c *engine.Ctx) []unit {
 				n := 2 + rnd.Intn(8)
 				g := gen.Random(rnd, n, rnd.Float())
 				src := srcs[rnd.Intn(len(srcs))]
-				st := chainStart{source: src.name, repr: src.repr, id: gid(g), model: g, build: func(key string) graph.EditableGraph { return src.build(c, key, g) }}
+				st := chainStart{variant: src.variant, source: src.name, repr: src.repr, id: gid(g), model: g, build: func(key string) graph.EditableGraph { return src.build(c, key, g) }}
 				if r.conforms(st) {
 					r.siblings(st, rnd, 2+rnd.Intn(4))
 				}
